@@ -19,7 +19,7 @@ RULE = (
     "transformations enumerated at every applicable site: T1 blank line / T2 '#' comment line inserted at each line "
     "boundary of a header-items or data section, T3 each inter-field whitespace run of data rows and each of the six "
     "pad positions of header lines replaced by {1 blank, 3 blanks, tab}, T4 trailing blanks on each line / leading "
-    "blanks on each non-title line, T5 CRLF, T6 no final newline, T7 every re-cut of wrapped depth steps, T8 "
+    "blanks on each non-title line, T5 CRLF, T6 no final newline, T7 every re-cut of wrapped depth steps and every uniform re-flow of the whole token stream (1 value per line .. all values on one line), T8 "
     "re-delimiting with SPACE/TAB/COMMA x padding, plus each kind at all sites at once; thorough adds pairs of "
     "single-site text transformations and per-site transformations of the corpus; both engines; a case is "
     "non-trivial when the transformed text differs from its base and the base reads"
@@ -87,6 +87,13 @@ def gen_abstract(p):
                 items[idx] = (mn + "LONGLONGLONG", un, va, de)
             elif kind == "case":
                 items[idx] = (mn.lower(), un, va, de)
+            elif kind == "empty_long_unit":
+                items[idx] = (mn, "KILOGRAM/METRE3", "", de)
+            elif kind == "numunit_empty":
+                items[idx] = (mn, "12345678901234", "", de)
+        if kind == "dup_extra":
+            secs[sec].append(("PROD", "", "ACME LOGGER", "producer"))
+            secs[sec].append(("PROD", "", "ACME LOGGER", "producer"))
     cells = []
     for i in range(r):
         row = []
@@ -98,7 +105,13 @@ def gen_abstract(p):
                 v = "-" + v
             row.append(v)
         cells.append(row)
-    return {"V": V, "W": W, "C": C, "P": P, "O": ["some free text", "second line 1 2 3"], "cells": cells}
+    pads = {}
+    for key, items in secs.items():
+        for idx, it in enumerate(items):
+            if it[1].startswith("."):
+                # 'DEPT..1IN' would be the double-dot form of ~Curves: real files write 'DEPT  ..1IN'
+                pads[(key, idx)] = ("", "  ", " ", " ", " ", "")
+    return {"V": V, "W": W, "C": C, "P": P, "O": ["some free text", "second line 1 2 3"], "cells": cells, "_pads": pads}
 
 
 BASE_PADS = ("", "", " ", " ", " ", "")
@@ -126,7 +139,7 @@ def render_gen(p, lay=None):
     for key, title in (("V", "~Version"), ("W", "~Well"), ("C", "~Curve"), ("P", "~Parameter")):
         lines = [title]
         for idx, it in enumerate(a[key]):
-            lines.append(lasgen.item_line(*it, pads=lay.get("pads", {}).get((key, idx), BASE_PADS)))
+            lines.append(lasgen.item_line(*it, pads=lay.get("pads", {}).get((key, idx), a["_pads"].get((key, idx), BASE_PADS))))
         secs.append(lines)
     secs.append(["~Other"] + a["O"])
     base_sep = {None: "  ", "SPACE": "  ", "TAB": "\t", "COMMA": ","}[dlm]
@@ -135,6 +148,13 @@ def render_gen(p, lay=None):
         base_sep = base_sep + " " if padk == "after" else " " + base_sep + " "
     cut = lay.get("cut", default_cut(p["c"], p["wrap"]))
     lines = ["~ASCII"]
+    if lay.get("flow"):
+        toks = [t for row in a["cells"] for t in row]
+        w = lay["flow"]
+        for k in range(0, len(toks), w):
+            lines.append(base_sep.join(toks[k:k + w]))
+        secs.append(lines)
+        return lasgen.render(secs)
     for i, row in enumerate(a["cells"]):
         k = 0
         gap = 0
@@ -190,6 +210,13 @@ def gen_layout_variants(p, tier):
         for comp in space.compositions(p["c"]):
             if comp != cut:
                 out.append(("T7-rewrap", {"cut": comp}))
+    # T7 flow: the token stream of the whole data section re-cut every w tokens (depth steps may share a line)
+    if p["wrap"] == "YES":
+        total = p["r"] * p["c"]
+        for w in range(1, total + 1):
+            if total > 24 and w > 12 and w not in (total, total // 2, p["c"] * 2, p["c"] * 3, p["c"] * 5):
+                continue
+            out.append(("T7-flow", {"flow": w}))
     # T8 re-delimit (unwrapped and wrapped)
     for dlm in ("SPACE", "TAB", "COMMA"):
         for padk in ("none", "after", "around"):
